@@ -9,6 +9,7 @@ import (
 	"io"
 	"net"
 	"os"
+	"runtime"
 	"strconv"
 	"strings"
 	"sync"
@@ -355,6 +356,8 @@ func runNetConn(kv map[string]string) string {
 	return "unknown-kind"
 }
 
+var wsjsonSerial sync.Mutex
+
 // stallPair makes the client's outgoing half block (zero receive window).
 var pairConns sync.Map // *websocket.Conn -> *tapConn
 
@@ -428,6 +431,10 @@ func genWsJson(r *Rng, tier string, stat func(string)) []string {
 	}
 	for _, bad := range []string{"{", "[1,2", "{\"a\":}", "nul", "\"unterminated", "", "{} {}", "[1] x", "\xff\xfe"} {
 		out = append(out, fmt.Sprintf("kind=invalid doc=%s", hx(bad)))
+		// after a rejected document two reads overlap on other connections: the pooled buffer of the failed read must not end up
+		// with both of them
+		out = append(out, fmt.Sprintf("kind=overlap doc=%s", hx(bad)))
+		stat("overlap-after-invalid")
 		stat("invalid")
 	}
 	out = append(out, "kind=struct")
@@ -547,6 +554,51 @@ func runWsJson(kv map[string]string) string {
 			}
 		}
 		return fmt.Sprintf("readfailed=%v closecode=%d laterwritefails=%v", e != nil, closeCode, e2 != nil)
+	case "overlap":
+		// single P: sync.Pool hands a returned buffer straight to the next Get, which makes buffer reuse reproducible
+		wsjsonSerial.Lock()
+		defer wsjsonSerial.Unlock()
+		old := runtime.GOMAXPROCS(1)
+		defer runtime.GOMAXPROCS(old)
+		mk := func() (*websocket.Conn, *autoPeer, error) {
+			c, raw, err := newLibConn(EndpointCfg{Role: "server"})
+			if err != nil {
+				return nil, nil, err
+			}
+			return c, startAutoPeer(raw, "server", true), nil
+		}
+		x, px, err := mk()
+		if err != nil {
+			return "dialerr=" + errClass(err)
+		}
+		px.send(rawFrame{Fin: true, Opcode: 1, Payload: Payload(kv["doc"])})
+		var junk interface{}
+		e0 := wsjson.Read(ctx, x, &junk) // the rejected document: error path of wsjson.Read
+		x.CloseNow()
+		a, pa, err := mk()
+		if err != nil {
+			return "dialerr=" + errClass(err)
+		}
+		b, pb, err := mk()
+		if err != nil {
+			return "dialerr=" + errClass(err)
+		}
+		docA, docB := `{"who":"A","pad":"aaaaaaaaaaaaaaaaaaaaaaaaaaaaaaaaaaaaaaaa"}`, `{"who":"B","pad":"bbbbbbbbbbbbbbbbbbbbbbbbbbbbbbbbbbbbbbbbbbbbbbbbbbbbbbbbbbbb"}`
+		pa.send(rawFrame{Fin: false, Opcode: 1, Payload: []byte(docA[:20])}) // A is in the middle of its message ...
+		var va, vb map[string]string
+		aerr := make(chan error, 1)
+		go func() { aerr <- wsjson.Read(ctx, a, &va) }()
+		time.Sleep(20 * time.Millisecond)
+		pb.send(rawFrame{Fin: true, Opcode: 1, Payload: []byte(docB)}) // ... while B reads a whole one
+		eb := wsjson.Read(ctx, b, &vb)
+		pa.send(rawFrame{Fin: true, Opcode: 0, Payload: []byte(docA[20:])})
+		ea := <-aerr
+		a.CloseNow()
+		b.CloseNow()
+		<-px.done
+		<-pa.done
+		<-pb.done
+		return fmt.Sprintf("readfailed=%v aok=%v bok=%v", e0 != nil, ea == nil && va["who"] == "A" && len(va["pad"]) == 40, eb == nil && vb["who"] == "B" && len(vb["pad"]) == 60)
 	case "struct", "bytes":
 		c, s, _, err := newPair(0, 0, 0, 0)
 		if err != nil {
